@@ -19,9 +19,16 @@
   the start), plus `iter_eq_spec_monthly_nth_partial` / `iter_eq_spec_yearly_nth_partial` /
   `iter_eq_spec_yearly_bymonth_nth_partial`: nth weekdays counted inside the month (MONTHLY, or YEARLY
   with BYMONTH) or the year (YEARLY without BYMONTH).  And `iter_eq_spec_yearly_easter_partial`: YEARLY with BYEASTER
-  offsets −80..250 in 1583..4099.  Missing: the three sub-daily frequencies (the model skips empty
-  periods, so the refinement is not period-by-period), BYWEEKNO, BYEASTER for the other frequencies,
-  and mixing nth BYDAY / BYEASTER with BYMONTHDAY or plain BYDAY.  Everything else below — including
+  offsets −80..250 in 1583..4099, and `iter_eq_spec_yearly_weekno_partial`: YEARLY with BYWEEKNO on the
+  complement of D-C01c (any week start, plain BYDAY allowed).  And `iter_eq_spec_hourly_partial` /
+  `iter_eq_spec_minutely_partial` / `iter_eq_spec_secondly_partial`: the three sub-daily frequencies
+  without BY lists at or above their own unit (HOURLY: no BYHOUR; MINUTELY: no BYHOUR / BYMINUTE; SECONDLY:
+  no BYHOUR / BYMINUTE / BYSECOND), through a refinement with skipping (one turn of the loop may pass over
+  several periods of the specification; `n` turns = the first `m` periods, `n ≤ m ≤ 24·n` resp. `1440·n`,
+  `86400·n`).  Missing: the sub-daily frequencies with those BY lists (the reachability loops
+  `__mod_distance` / `minutelyLoop` / `secondlyLoop` beyond their first pass are only proved monotone so
+  far), BYWEEKNO / BYEASTER for the other frequencies, and mixing nth BYDAY / BYEASTER / BYWEEKNO with BYMONTHDAY (or nth BYDAY / BYEASTER
+  with plain BYDAY).  Everything else below — including
   `iter_strictMono` for all seven frequencies — is proved for ALL rules / all argument sets, with no
   `Supported` hypothesis (so also inside the known-defect classes).
 -/
@@ -36,8 +43,9 @@ import DateutilVerif.Proofs.RRuleNthMonthly
 import DateutilVerif.Proofs.RRuleNthYearly
 import DateutilVerif.Proofs.RRuleNthYM
 import DateutilVerif.Proofs.RRuleEasterYearly
-import DateutilVerif.Proofs.RRuleWeekno
+import DateutilVerif.Proofs.RRuleWeeknoYearly
 import DateutilVerif.Proofs.RRuleOrig
+import DateutilVerif.Proofs.RRuleSecondly
 
 namespace C01
 open RRule Cal RRule.Tables
@@ -120,21 +128,29 @@ theorem nwdaymask_marks_nth_weekdays (r : Rule) (y m : Int) (info : Info) (h : r
             (daysBeforeMonth y month + daysInMonth y month - 1) j wn then 1 else 0) :=
   nwdaymask_monthly (rebuild_facts r y m info h) hf nwl hne hnw hok month hm1 hm12
 
-/-- **the week-number mask, main loop (partial)**: one pass of lines 1182-1186 started at index `i` marks
-    exactly the indices from `i` up to (excluding) the next index whose weekday is WKST — at most 7,
-    across the year end into the 7-day tail — raises nothing and changes nothing else.  (With
-    `weekLoop_spec` this gives: after the loop over BYWEEKNO an index is marked iff it lies in one of
-    the listed, normalised, existing weeks.  Missing for the whole `wnomask`: next year's week 1, last
-    year's last week (`lnumweeks`, D-C01c) and the bridge to the specification's week numbering.) -/
-theorem wnomask_marks_one_week_partial (r : Rule) (y m : Int) (info : Info) (h : rebuild r y m = .ok info)
-    (wkst : Int) (hw : 0 ≤ wkst ∧ wkst ≤ 6) (i : Int) (mask : List Int)
-    (h0 : 0 ≤ i) (hn : i + 7 ≤ (mask.length : Int)) (hlen : (mask.length : Int) ≤ 378) :
-    ∃ mask', markWeek info.wdaymask wkst 7 mask i = .ok mask' ∧ mask'.length = mask.length ∧
-      ∀ j : Int, 0 ≤ j → j < (mask.length : Int) →
-        Py.getIdx mask' j =
-          (if i ≤ j ∧ j < i + ((wkst - weekdayOfOrd (info.yearordinal + i) - 1) % 7 + 1) then .ok 1
-           else Py.getIdx mask j) :=
-  markWeek_week (rebuild_facts r y m info h) wkst hw i mask h0 hn hlen
+/-- **the week-number mask** (lines 1157-1222, after the fix of D-C01f), on the complement of D-C01c
+    (`WnoOk`: a listed 52/53 comes with −1, a listed −52/−53 comes with 1): for every year 1..9999, every
+    week start and every such BYWEEKNO list the mask is built without raising, and inside the year an
+    index is marked iff the date's week number (weeks of ≥ 4 days, `Spec.RRule.weekOf`), or that number
+    counted from the end of its week-year, is listed — including the days of early January that belong to
+    last year's last week and the days of late December that belong to next year's week 1. -/
+theorem wnomask_marks_listed_weeks (r : Rule) (y m : Int) (info : Info) (h : rebuild r y m = .ok info)
+    (wkst : Int) (hw : 0 ≤ wkst ∧ wkst ≤ 6) (bw : List Int) (hc : WnoOk bw) :
+    ∃ mask, buildWnomask wkst bw y info.yearlen info.yearweekday info.wdaymask = .ok mask ∧
+      (mask.length : Int) = info.yearlen + 7 ∧
+      ∀ j : Int, 0 ≤ j → j < info.yearlen →
+        Py.getIdx mask j = .ok (if weekClause wkst bw (info.yearordinal + j) = true then 1 else 0) :=
+  buildWnomask_spec (rebuild_facts r y m info h) wkst hw bw hc
+
+/-- week arithmetic behind it: week 1 starts within three days of Jan 1 on the week start, and every
+    week-year has 52 or 53 weeks -/
+theorem week_years (w y : Int) (hw : 0 ≤ w ∧ w ≤ 6) :
+    weekdayOfOrd (Spec.RRule.week1Start w y) = w ∧
+    toOrdinal y 1 1 - 3 ≤ Spec.RRule.week1Start w y ∧ Spec.RRule.week1Start w y ≤ toOrdinal y 1 1 + 3 ∧
+    ∃ q, Spec.RRule.week1Start w (y + 1) - Spec.RRule.week1Start w y = 7 * q ∧ (q = 52 ∨ q = 53) := by
+  have e := week1Start_eq w y
+  have r := w1off_range w (weekdayOfOrd (toOrdinal y 1 1))
+  exact ⟨week1Start_weekday w y hw, by omega, by omega, weeks_in_year w y hw⟩
 
 /-! ### 2. the constructor -/
 
@@ -380,6 +396,44 @@ theorem iter_eq_spec_yearly_easter_partial (a : Args) (r : Rule) (ea : EasterYAr
     (iter r n).1 = Spec.RRule.occ a n :=
   iter_eq_spec_yearly_easter ea h n hlo hy
 
+/-- **`iter_eq_spec`, proved portion, YEARLY with BYWEEKNO** on the complement of D-C01c (a listed 52/53
+    comes with −1, a listed −52/−53 comes with 1): INTERVAL ≥ 1, valid start, any week start, any BYMONTH /
+    BYYEARDAY / plain BYDAY / BYHOUR / BYMINUTE / BYSECOND / BYSETPOS, any COUNT / UNTIL, no BYMONTHDAY /
+    nth BYDAY / BYEASTER: exactly the specification's recurrence set, every year up to 9999. -/
+theorem iter_eq_spec_yearly_weekno_partial (a : Args) (r : Rule) (wa : WeeknoYArgs a) (h : construct a = .ok r)
+    (n : Nat) (hy : a.dtstart.y + n * a.interval ≤ 9999) :
+    (iter r n).1 = Spec.RRule.occ a n :=
+  iter_eq_spec_yearly_weekno wa h n hy
+
+/-- **`iter_eq_spec`, proved portion, HOURLY** (no BYHOUR): INTERVAL ≥ 1, valid start, any BYMONTH /
+    BYMONTHDAY (non-zero) / BYYEARDAY / BYDAY / BYMINUTE / BYSECOND (members 0..59; outside, the generator
+    raises while iterating) / BYSETPOS, any COUNT / UNTIL, no BYWEEKNO / BYEASTER.  The generator does not
+    visit every hour of the grid: after a day removed by the BY-filter it jumps to that day's last
+    on-grid hour.  So `n` turns of its loop correspond to `m` periods of the specification, `n ≤ m ≤ 24·n`
+    (the hours passed over are proved to select nothing), and what has been yielded after `n` turns is
+    exactly the specification's recurrence set of the first `m` periods — in particular the two
+    sequences are the same. -/
+theorem iter_eq_spec_hourly_partial (a : Args) (r : Rule) (ha : HourlyArgs a) (h : construct a = .ok r) (n : Nat)
+    (hle : Spec.RRule.startOrd a * 24 + a.dtstart.hh + (24 * n + 1) * a.interval + 23 < (maxOrdinal + 1) * 24) :
+    ∃ m, n ≤ m ∧ m ≤ 24 * n ∧ (iter r n).1 = Spec.RRule.occ a m :=
+  iter_eq_spec_hourly ha h n hle
+
+/-- **`iter_eq_spec`, proved portion, MINUTELY** (no BYHOUR, no BYMINUTE; BYSECOND members 0..59): as
+    `iter_eq_spec_hourly_partial`, one turn passing over at most 1440 periods. -/
+theorem iter_eq_spec_minutely_partial (a : Args) (r : Rule) (ma : MinutelyArgs a) (h : construct a = .ok r) (n : Nat)
+    (hle : (Spec.RRule.startOrd a * 24 + a.dtstart.hh) * 60 + a.dtstart.mm + (1440 * n + 1) * a.interval + 1439 <
+      (maxOrdinal + 1) * 1440) :
+    ∃ m, n ≤ m ∧ m ≤ 1440 * n ∧ (iter r n).1 = Spec.RRule.occ a m :=
+  iter_eq_spec_minutely ma h n hle
+
+/-- **`iter_eq_spec`, proved portion, SECONDLY** (no BYHOUR / BYMINUTE / BYSECOND): as
+    `iter_eq_spec_hourly_partial`, one turn passing over at most 86400 periods. -/
+theorem iter_eq_spec_secondly_partial (a : Args) (r : Rule) (sa : SecondlyArgs a) (h : construct a = .ok r) (n : Nat)
+    (hle : ((Spec.RRule.startOrd a * 24 + a.dtstart.hh) * 60 + a.dtstart.mm) * 60 + a.dtstart.ss +
+      (86400 * n + 1) * a.interval + 86399 < (maxOrdinal + 1) * 86400) :
+    ∃ m, n ≤ m ∧ m ≤ 86400 * n ∧ (iter r n).1 = Spec.RRule.occ a m :=
+  iter_eq_spec_secondly sa h n hle
+
 /-! ### non-vacuity and the known-finding witnesses reproduced by the model -/
 
 def dt (y m d : Int) (hh : Int := 0) (mm : Int := 0) (ss : Int := 0) : DT := { y, m, d, hh, mm, ss, us := 0 }
@@ -442,6 +496,31 @@ example : EasterYArgs { freq := 0, dtstart := dt 2024 1 1 10, byeaster := some [
   ⟨rfl, by decide, by decide, rfl, rfl, rfl, ⟨[1, 39], rfl, by decide, by decide⟩⟩
 example : dates (construct { freq := 0, dtstart := dt 2024 1 1 10, byeaster := some [1, 39] }) 2
     = [(2024, 4, 1), (2024, 5, 9), (2025, 4, 21), (2025, 5, 29)] := by decide +kernel
+
+-- a WeeknoYArgs instance (RFC 5545: "Monday of week number 20"), and one with the last week and week 53 / −1
+example : WeeknoYArgs { freq := 0, dtstart := dt 1997 5 12 9, byweekno := some [20], byweekday := some [(0, 0)] } :=
+  ⟨rfl, by decide, by decide, by decide, rfl, rfl, by decide, ⟨[20], rfl, by decide, ⟨by decide, by decide⟩⟩⟩
+example : dates (construct { freq := 0, dtstart := dt 1997 5 12 9, byweekno := some [20], byweekday := some [(0, 0)] }) 3
+    = [(1997, 5, 12), (1998, 5, 11), (1999, 5, 17)] := by decide +kernel
+example : WeeknoYArgs { freq := 0, dtstart := dt 2020 1 1, wkst := some 6, byweekno := some [53, -1, 1] } :=
+  ⟨rfl, by decide, by decide, by decide, rfl, rfl, by intro w hw; simp at hw,
+   ⟨[53, -1, 1], rfl, by decide, ⟨by decide, by decide⟩⟩⟩
+
+-- an HourlyArgs instance: every 5 hours on Mondays at :00 and :30 — one turn per removed day (Tue..Sun)
+example : HourlyArgs { freq := 4, dtstart := dt 2024 1 1 7, interval := 5, byweekday := some [(0, 0)],
+                       byminute := some [0, 30] } :=
+  ⟨rfl, by decide, by decide, rfl, rfl, by intro x hx; simp at hx, rfl, by decide, by intro x hx; simp at hx⟩
+example : ((match construct { freq := 4, dtstart := dt 2024 1 1 7, interval := 5, byweekday := some [(0, 0)],
+                               byminute := some [0, 30] } with
+            | .ok r => (iterDT r 12).1 | .error _ => []).map (fun (t : DT) => (t.d, t.hh, t.mm))) =
+    [(1, 7, 0), (1, 7, 30), (1, 12, 0), (1, 12, 30), (1, 17, 0), (1, 17, 30), (1, 22, 0), (1, 22, 30),
+     (8, 4, 0), (8, 4, 30), (8, 9, 0), (8, 9, 30)] := by decide +kernel   -- 12 turns reach period 34 of the grid (170 h after the start)
+
+-- a MinutelyArgs and a SecondlyArgs instance: every 90 minutes in March; every 45 s on the 1st of the month
+example : MinutelyArgs { freq := 5, dtstart := dt 2024 2 28 23 30, interval := 90, bymonth := some [3] } :=
+  ⟨rfl, by decide, by decide, rfl, rfl, by intro x hx; simp at hx, rfl, rfl, by intro x hx; simp at hx⟩
+example : SecondlyArgs { freq := 6, dtstart := dt 2024 2 29 23 59 30, interval := 45, bymonthday := some [1] } :=
+  ⟨rfl, by decide, by decide, rfl, rfl, by decide, rfl, rfl, rfl⟩
 
 -- D-C01a: MONTHLY with plain MO and nth TU(1): nothing in a whole year although the set has every Monday
 example : dates (construct { freq := 1, dtstart := dt 2020 1 1 9, byweekday := some [(0, 0), (1, 1)] }) 12 = [] := by
